@@ -110,6 +110,9 @@ impl Tok {
     }
 }
 
+// With the `plain` feature the token has no destructor at all (`needs_drop::<Tok>()` is false, and it is still
+// not `Copy`): the functional scenarios are re-run with it so that a fast path keyed on drop glue cannot hide.
+#[cfg(not(feature = "plain"))]
 impl Drop for Tok {
     #[inline]
     fn drop(&mut self) {
